@@ -298,7 +298,16 @@ func (b *build) runSpec(s *Spec, race bool, extraEnv ...string) *Result {
 	ctx, cancel := context.WithTimeout(context.Background(), timeout)
 	defer cancel()
 	cmd := exec.CommandContext(ctx, bin, "-test.run", "TestSim", "-test.timeout", "0")
-	env := workerEnv(extraEnv...)
+	// the same variables with values of the same length in every mode: the
+	// size of the environment must not differ between a check, a replay and a
+	// logged run of one spec (it shifts what the process allocates at start)
+	flags := map[string]string{"VERIF_LOG": "0", "VERIF_CHOICES": "0", "VERIF_SAMPLE": "0"}
+	for _, e := range extraEnv {
+		if kk, v, ok := strings.Cut(e, "="); ok {
+			flags[kk] = v
+		}
+	}
+	env := workerEnv("VERIF_LOG="+flags["VERIF_LOG"], "VERIF_CHOICES="+flags["VERIF_CHOICES"], "VERIF_SAMPLE="+flags["VERIF_SAMPLE"])
 	if len(js) < 100000 {
 		env = append(env, "VERIF_SPEC="+string(js))
 	} else {
@@ -1065,6 +1074,7 @@ func cmdSelftest(args []string) int {
 	nseeds := fs.Int("seeds", 12, "seeds per configuration")
 	reps := fs.Int("reps", 4, "fresh processes per (configuration, seed)")
 	props := fs.String("props", "S00", "comma separated workloads")
+	tier := fs.String("tier", "selftest", "tier whose plan is sampled (selftest: a handful of cells per property; quick: every cell of the quick plan)")
 	fs.Parse(args[1:])
 	b, err := newBuild(false)
 	if err != nil {
@@ -1078,7 +1088,7 @@ func cmdSelftest(args []string) int {
 			workers = wc
 			var specs []*Spec
 			for sd := 0; sd < *nseeds; sd++ {
-				base, err := b.plan(prop, "selftest", uint64(1000*wc+sd), 0, nil)
+				base, err := b.plan(prop, *tier, uint64(1000*wc+sd), 0, nil)
 				if err != nil {
 					fmt.Fprintln(os.Stderr, "BUILD-ERROR:", err)
 					return 2
